@@ -356,7 +356,7 @@ func cmdCheck(args []string) {
 		for _, v := range hr.Violations {
 			key := v.Kind + "|" + v.Label + "|" + v.Known
 			if v.Kind != "assert" {
-				key += "|" + v.Msg
+				key += "|" + strings.SplitN(v.Where, " < ", 2)[0]
 			}
 			if seen[key] {
 				continue
